@@ -164,7 +164,10 @@ def one_run(eng, cfg, strict, tag=''):
     feff = f * res
     until = cfg.get('until', 3)
     n = cfg.get('n', 1)
-    sims = ['A', 'B'][:n]
+    sims = ['A', 'B', 'C'][:n]
+    types = {'A': cfg.get('typ', 'time-based'), 'B': cfg.get('typ_b', 'time-based'), 'C': cfg.get('typ_c', 'time-based')}
+    steppers = cfg.get('steppers')       # None: every simulator schedules itself; else the listed ones only
+    dmax = cfg.get('dmax', {})           # sid -> largest self-chosen step size (symbolic in 1..dmax)
     loop = VLoop(eng, late=cfg.get('late', False), latency=cfg.get('latency', False), maxlate=feff / 4)
     loop._clock_resolution = frac(Fraction(1, 10**9))
     loop.event_latency = cfg.get('event_latency', False)
@@ -178,9 +181,12 @@ def one_run(eng, cfg, strict, tag=''):
 
     def behaviour(sim, what, k, time, arg, max_advance):
         if what == 'step':
-            if cfg.get('self_steps', True):
+            if cfg.get('self_steps', True) and (steppers is None or sim.sid in steppers):
                 if sim.typ == 'time-based' or k < cfg.get('K', 3) - 1:
-                    d = 1 if not cfg.get('sym_steps') else eng.int(f'{sim.sid}.d{k}', 1, 2)
+                    if sim.sid in dmax:
+                        d = eng.int(f'{sim.sid}.d{k}', 1, dmax[sim.sid])
+                    else:
+                        d = 1 if not cfg.get('sym_steps') else eng.int(f'{sim.sid}.d{k}', 1, 2)
                     return time + d
             return None
         return {eid: {a: f'{sim.sid}#{k}.{a}' for a in attrs} for eid, attrs in arg.items()}
@@ -194,26 +200,24 @@ def one_run(eng, cfg, strict, tag=''):
                          cache=cfg.get('cache', True))
         try:
             ents = {}
-            typ = cfg.get('typ', 'time-based')
+            typ = types['A']
             if cfg.get('grouped'):
                 with w.group():
                     for s in sims:
-                        ents[s] = w.start('S', sim_id=s, typ=typ if s == 'A' else cfg.get('typ_b', 'time-based')).M()
+                        ents[s] = w.start('S', sim_id=s, typ=types[s]).M()
             else:
                 for s in sims:
-                    ents[s] = w.start('S', sim_id=s, typ=typ if s == 'A' else cfg.get('typ_b', 'time-based')).M()
-            if n == 2:
-                a_t = typ
-                b_t = cfg.get('typ_b', 'time-based')
-                from vk import topo as T
-                o, i = T.default_kinds(a_t, b_t)
-                w.connect(ents['A'], ents['B'], (T.out_attr(a_t, o), T.in_attr(b_t, i)))
+                    ents[s] = w.start('S', sim_id=s, typ=types[s]).M()
+            from vk import topo as T
+            for a, b in zip(sims, sims[1:]):     # a chain A -> B -> C
+                o, i = T.default_kinds(types[a], types[b])
+                w.connect(ents[a], ents[b], (T.out_attr(types[a], o), T.in_attr(types[b], i)))
             if typ == 'event-based':
                 w.set_initial_event('A', 0)
             # external events
             for ei in range(cfg.get('events', 0)):
                 et = eng.int(f'event_time{ei}', 0)
-                target = 'A'
+                target = cfg.get('target', 'A')
 
                 def inject(lp, et=et, target=target):
                     now_sim = None
@@ -267,7 +271,7 @@ def pacing(cfg):
         slow = [m for m in r['warns'] if 'too slow' in m]
         if exact:
             rep_sims = sorted(set(r['loop'].reported))
-            dependent = {'B'} if cfg.get('n', 1) == 2 else set()
+            dependent = set(['B', 'C'][:cfg.get('n', 1) - 1])
             eng.check(not slow, 'C17.tooslow', f'simulators answer instantly and timers are exact, but {len(slow)} too-slow report(s) for {rep_sims}: {slow[:1]}: {desc}',
                       {'fp': fp + [rep_sims], 'reported': rep_sims, 'only_dependent': bool(rep_sims) and set(rep_sims) <= dependent})
         # (d) the same run with rt_strict=True: RuntimeError iff a report was logged, and nothing else changes
@@ -304,12 +308,12 @@ def events(cfg):
         if cfg.get('non_rt'):
             eng.check(isinstance(texc, SimulationError), 'C17.event_nonrt', f'set_event outside real-time mode did not fail with SimulationError (got {texc!r}): {desc}', {'fp': fp})
             return ('nonrt', {'nontrivial': True})
-        stepped = [(s, t, c) for s, t, c in r['steps'] if s == 'A']
+        stepped = [(s, t, c) for s, t, c in r['steps'] if s == cfg.get('target', 'A')]
         future = (et > ev['progress']) if True else None
         # only events that lie in the future of the simulator at the injection instant are specified
         import math
         tick = math.ceil(ev['clock'] / f)     # the tick real time is in at the injection instant
-        is_future = bool(et > ev['last_step']) and bool(et >= ev['progress']) and bool(et >= tick)
+        is_future = bool(et > ev['last_step']) and bool(et >= tick)
         if not is_future:
             return ('pastevent:' + str(r['outcome']), {'nontrivial': False})
         if bool(et < ev['until']):
@@ -326,7 +330,8 @@ def events(cfg):
                 # must not be reported too slow, i.e. it is taken when the event arrives or at the next poll, never a period late
                 slow = [m for m in r['warns'] if 'too slow' in m]
                 eng.check(not slow, 'C17.event_tooslow', lambda: f'set_event({et}) at clock {ev["clock"]}: instantly answering simulator reported too slow: {slow[:1]}; steps {[(str(t), str(c)) for s, t, c in stepped]}: {desc}',
-                          {'fp': fp + ['tooslow']})
+                          {'fp': fp + ['tooslow', sorted(set(r['loop'].reported))], 'reported': sorted(set(r['loop'].reported)),
+                           'only_dependent': bool(r['loop'].reported) and set(r['loop'].reported) <= set(['B', 'C'][:cfg.get('n', 1) - 1])})
         else:
             ignored = [m for m in r['warns'] if 'will be ignored' in m]
             eng.check(bool(ignored), 'C17.event_late', f'set_event({et}) with until={ev["until"]} gave no warning: {desc}', {'fp': fp})
@@ -366,6 +371,23 @@ def jobs(tier):
             if not q:
                 out.append(('events', dict(cfgb, f='1/2', latency=True)))
     out.append(('events', {'f': '1', 'res': '1', 'grouped': False, 'n': 1, 'until': 3, 'K': 5, 'typ': 'hybrid', 'events': 1, 'non_rt': True, 'sync': []}))
+    # the event goes to a simulator below a sparsely stepping triggering ancestor (its own step sizes symbolic in 1..3)
+    for typ_b in ('event-based', 'hybrid'):
+        for grouped in (False,) if q else (False, True):
+            cfgb = {'f': '1', 'res': '1', 'grouped': grouped, 'n': 2, 'until': 4, 'K': 4, 'typ': 'hybrid', 'typ_b': typ_b, 'events': 1, 'target': 'B',
+                    'steppers': ['A'], 'dmax': {'A': 3}, 'sync': ['A', 'B']}
+            out.append(('events', dict(cfgb)))
+            if not q:
+                out.append(('events', dict(cfgb, event_latency=True)))
+                out.append(('events', dict(cfgb, steppers=['A', 'B'])))
+    # a chain root -> relay -> self-stepping simulator: the last one has no direct wall-clock paced input
+    for grouped in (False,) if q else (False, True):
+        cfgc = {'f': '1', 'res': '1', 'grouped': grouped, 'n': 3, 'until': 5, 'K': 5, 'typ': 'hybrid', 'typ_b': 'event-based', 'typ_c': 'hybrid',
+                'steppers': ['A', 'C'], 'dmax': {'A': 4}, 'check_strict': False}
+        out.append(('pacing', dict(cfgc)))
+        if not q:
+            out.append(('pacing', dict(cfgc, late=True)))
+            out.append(('pacing', dict(cfgc, f='1/2')))
     js = []
     for kind, cfg in out:
         jid = kind + '|' + '|'.join(f'{k}={cfg[k]}' for k in sorted(cfg))
